@@ -19,7 +19,7 @@ PROBES = [A, Ax, Axy, Axy + b"p:q|", Ab, Az, Aw, Awx, S, Sx, Bb, C1, b"s:http|",
 
 class Check(HCheck):
     pid = ID
-    owned = ("create", "delete", "addprefix", "rmprefix", "move", "create_many")
+    owned = ("create", "delete", "addprefix", "rmprefix", "move", "create_many", "as_str")
     must_count = ("resolved_nested", "resolved_absent_lru", "unresolved", "refusals_checked")
 
     def spaces(self, tier):
@@ -78,6 +78,13 @@ class Check(HCheck):
         # ids beyond the small range: a caller-chosen id (the API accepts any) and 260 creations
         big = [("create_many", Bb, 260), al.addprefix(Az, ("id", 300)), al.addprefix(Ax, ("id", 70000)), al.create(A), al.rmprefix(Az, "right"), al.rmprefix(Ax, "right"), al.rmprefix(Bb + b"p:0258|", "right"), al.move(Bb + b"p:0259|", 0, "right"), al.rmprefix(Az, "wrong"), al.delete(2)]
         sp.append(Space(Cfg("never"), big, 3, name="edits/large-ids"))
+        # constructor argument `encoding`: a latin-1 index driven with str LRUs holding a
+        # non-ASCII letter, for writes and for queries alike
+        E1 = b"s:http|h:fr|h:caf\xe9|"
+        E2 = E1 + b"p:th\xe9|"
+        self.enc_probes = [E1, E2, E2 + b"p:x|", b"s:http|h:fr|", E1 + b"p:a|"]
+        eops = [al.as_str(al.create(E1)), al.as_str(al.create(E2)), al.create(b"s:http|h:fr|"), al.as_str(al.page(E2 + b"p:x|")), al.delete(0), al.rmprefix(E1), al.addprefix(E1 + b"p:a|", 0)]
+        sp.append(Space(Cfg("never", encoding="latin-1", query_str=True), eops, 4 if thorough else 3, name="edits/latin-1+str"))
         sp.append(Space(Cfg("domain", {A: "path1"}), ops2, 4 if thorough else 3, roots=[al.R0, al.R1], name="edits+auto/domain+path1"))
         return sp
 
@@ -94,11 +101,14 @@ class Check(HCheck):
             ctx.fail("prefix-map", "attached prefixes %s differ from the net effect of the edits %s" % (_sh(got), _sh(sorted(m.prefix.items()))))
             return
         first = [w.last_obs] if getattr(w, "last_obs", None) else []
-        for l in first + PROBES + getattr(self, "long_probes", []):
+        probes = first + PROBES + getattr(self, "long_probes", [])
+        if w.cfg.query_str:
+            probes = first + list(self.enc_probes)
+        for l in probes:
             e = m.resolve(l)
             for what, fn in (("webentity", t.retrieve_webentity), ("prefix", t.retrieve_prefix)):
                 try:
-                    g = fn(l)
+                    g = fn(w.q(l))
                     err = None
                 except TE:
                     g, err = None, "lib"
@@ -121,7 +131,7 @@ class Check(HCheck):
                     if err is not None or g != exp:
                         ctx.fail("resolve-wrong", "resolving the %s of %s gave %r, expected %r (longest attached stem-prefix %s)" % (what, L.show(l), "library error" if err else g, exp, L.show(e)))
                         return
-        for p in PROBES:
+        for p in ([] if w.cfg.query_str else PROBES):
             if p in m.closure():
                 try:
                     g = t.get_webentity_by_prefix(p)
